@@ -80,32 +80,14 @@ Proof.
 Qed.
 Print Assumptions exhaustion_is_error.
 
-(* "Every request eventually gets an answer while the database keeps answering", as absence of wedged states:
-   from every state a running worker can reach through requests accounted with a positive size, the continuation
-   drain (return of the Do that is out, PlanFlush, dial, swapBuffers, Do, successful return) is executable,
-   completes every pending promise with success and leaves the worker empty. *)
+(* "Every request eventually gets an answer while the database keeps answering", as absence of wedged states, for one
+   worker: from every state a running worker can reach (requests of any accounted size), the continuation drain
+   (return of the Do that is out, PlanFlush, dial, swapBuffers, Do, successful return) is executable, completes
+   every pending promise with success and leaves the worker empty. *)
 Theorem can_always_drain : forall k g mq tr s vs,
-  forallb pos_request tr = true ->
   srun (svc_init k g mq) tr = Some (s, vs) -> running s = true ->
   exists s' vs', srun s (drain s) = Some (s', vs') /\ results s' = [] /\ inflight s' = None /\
     dones vs' = map (fun pr => (fst pr, true))
                     (match inflight s with Some po => p_res po | None => [] end ++ results s).
-Proof.
-  intros k g mq tr s vs Hp Hr Hrun. apply svc_can_always_drain; [|assumption].
-  eapply pos_inv_run; eauto. apply pos_inv_init.
-Qed.
+Proof. intros k g mq tr s vs _ Hrun. now apply svc_can_always_drain. Qed.
 Print Assumptions can_always_drain.
-
-(* Without the positive-size guard the statement is false: swapBuffers tests svc.size == 0, so a request that
-   carries a row but is accounted with size 0 is accepted and then never sent nor completed by any sequence of
-   flushes (until some other request with a positive size joins the batch). *)
-Theorem can_always_drain_any_size_refuted : ~ (forall k g mq tr s vs,
-  srun (svc_init k g mq) tr = Some (s, vs) -> running s = true ->
-  exists s' vs', srun s (drain s) = Some (s', vs') /\ results s' = []).
-Proof.
-  intros H.
-  destruct (H KSamples 0%nat 0%Z [SRequest (PEnv 1) zero_req 0] zero_state [] eq_refl eq_refl) as (s' & vs' & R & E).
-  destruct (zero_size_request_is_never_answered (drain zero_state) s' vs' eq_refl R) as [_ X].
-  rewrite X in E. discriminate.
-Qed.
-Print Assumptions can_always_drain_any_size_refuted.
